@@ -35,6 +35,31 @@ def run(ck: Check, prog: Program) -> None:
     vs = validators(prog)
     ck.require('VALID-ORDER', 'validator classes', len(vs), 3)
     interp = Interp(prog)
+    # a validator is attached with `@validator.validate` / `@validator.validate(...)`: both forms hand the method back (with the
+    # validator recorded in its metadata); a form that hands back None un-registers the method stacked under `@registry.add`
+    from .common import ctor_forwarding, decorator_protocol_problems
+    vd = prog.find_method(prog.cls(BASEVAL), 'validate')
+    if vd is None:
+        raise AnalysisError(f'{BASEVAL}.validate not found')
+    ck.functions.add(vd.qualname)
+    pd_ = decorator_protocol_problems(prog, vd)
+    ck.ob('VALID-ATTACH', 'BaseValidator.validate: usable as `@validate` and `@validate(...)`, handing back the method it decorates', not pd_)
+    for msg in pd_:
+        ck.finding('VALID-ATTACH', vd.qualname, f'decorator protocol: {msg[:50]}', vd.module.rel, vd.node.lineno,
+                   f'{short(vd.qualname)}: {msg}: the decorated name is bound to None — stacked under `@registry.add` nothing is registered '
+                   f'and every call is answered -32601 instead of being validated and executed')
+    # the exclusion predicate (and every other option a validator subclass accepts on behalf of BaseValidator) reaches the base
+    # constructor as given: dropped on the way, the default `lambda *args: False` is used and nothing is ever excluded
+    for ci in vs:
+        if ci.qualname == BASEVAL or '__init__' not in ci.methods:
+            continue
+        ck.functions.add(ci.methods['__init__'].qualname)
+        fwd, probs_ = ctor_forwarding(prog, ci)
+        ck.ob('EXCL-FORWARD', f'{ci.name}.__init__ hands its base-class options {fwd} to BaseValidator.__init__ as given', not probs_)
+        for line, msg in probs_:
+            ck.finding('EXCL-FORWARD', ci.methods['__init__'].qualname, msg[:70], ci.module.rel, line,
+                       f'{ci.name}: {msg}: the parameters the application asked to exclude (injected dependencies) are validated and can be '
+                       f'set by the client')
     for ci in vs:
         vm = ci.methods.get('validate_method')
         if vm is None:
@@ -202,6 +227,9 @@ def run(ck: Check, prog: Program) -> None:
         ck.ob('BIND-BEFORE-RUN', f'{r.cls.name}: the method runs only after validate_method returned', not bad)
         for rule, construct, line, msg in bad:
             ck.finding(rule, r.handle_rpc_method.qualname, construct, r.dispatch.module.rel, line, msg)
+    from .totality import encoder_default
+    encoder_default(ck, prog, 'pjrpc.server.dispatcher.JSONEncoder', [VERR],
+                    why='the -32602 answer must carry a JSON-encodable description of what was wrong with the parameters')
 
 
 def _signature_filter(ck: Check, prog: Program) -> None:
